@@ -15,6 +15,9 @@ Property search on the implementation (oracle independent of pyanalyze):
                              contains the result type of each accepted member's own call
   P3 an Any argument       : first accepting overload accepts through Any and another accepting overload has a different
                              return type => Any[multiple_overload_matches] (never one overload's type)
+A failing input is reported with the exception class the Lean driver computes (D08_emptyVarPos / D08_unionInVarPos) and
+conforms = (pyanalyze's result == the model's). Inside an exception class a difference between pyanalyze and the model is
+not a disagreement when the property itself was evaluated on that input and holds (the defect has been repaired there).
 """
 import itertools, json, os
 
@@ -46,7 +49,9 @@ RULE = (
     "overload sets of 2-4 signatures over the vocabulary {int, bool, str, bytes, None, list[int], object, A, B(A), "
     "Literal[1], Literal['a'], int|str, Optional[int], str|bytes, Any}; parameters positional-only / "
     "positional-or-keyword / *args / keyword-only with and without defaults; first all sets of 2 and 3 one-parameter "
-    "signatures over a 7-type core x all single arguments (exhaustive), then seeded random sets (half of the later "
+    "signatures over a 7-type core x all single arguments and all pairs of *args overloads over a 5-type core x packs of "
+    "0-2 arguments (exhaustive; thorough: also all pairs of two-parameter overloads over a 4-type core x argument pairs), "
+    "then seeded random sets (half of the later "
     "signatures are mutated copies of an earlier one: overlapping / shadowed / different arity / keyword) x argument "
     "tuples (0-3 positionals, keyword subsets incl. a foreign name) drawn so that about half contain neither Any nor "
     "a union, a quarter exactly one union, the rest Any or mixtures; non-trivial = the call binds to at least one "
@@ -306,7 +311,7 @@ def random_call(rng, sigs, mode):
     npos_max = max(sum(1 for p in ps if p[1] in ("po", "pk")) for ps, _ in sigs)
     has_vp = any(p[1] == "vp" for ps, _ in sigs for p in ps)
     # aim at the shape of one of the overloads most of the time
-    if rng.random() < 0.75:
+    if rng.random() < 0.85:
         pos_ps = [p for p in base if p[1] in ("po", "pk")]
         npos = rng.randint(sum(1 for p in pos_ps if p[1] == "po"), len(pos_ps)) if pos_ps else 0
         if any(p[1] == "vp" for p in base) and rng.random() < 0.6:
@@ -321,8 +326,8 @@ def random_call(rng, sigs, mode):
     nargs = npos + len(kwn)
 
     def hint(i):  # the annotation some overload has at this place, to make matches frequent
-        if rng.random() < 0.6:
-            ps = rng.choice(sigs)[0]
+        if rng.random() < 0.8:
+            ps = base if rng.random() < 0.6 else rng.choice(sigs)[0]
             if i < npos:
                 pp = [p for p in ps if p[1] in ("po", "pk", "vp")]
                 if pp:
@@ -529,7 +534,20 @@ def judge_stream(ctx):
             ok = not isinstance(cm, CanAssignError)
             impl.append("acc=%d ua=%s" % (ok, int(used) if ok else "x"))
             pairs.append(("*" + p, pk))
-    model = lean.run_driver("C08", lines)
+    malformed = [
+        "(call (sigs (sig (ps (p k vk 0 any)) any)) (pos) (kws))",      # **kwargs parameter: outside the model
+        "(call (sigs (sig (ps (p a xx 0 any)) any)) (pos) (kws))",      # unknown kind
+        "(call (sigs) (pos any)",                                        # unbalanced
+        "(judge (typed 1))",
+        "hello",
+    ]
+    model = lean.run_driver("C08", lines + malformed)
+    for m in model[len(lines):]:
+        ctx.corr("malformed")
+        ctx.count(1, malformed=1)
+        if m != "bad-op":
+            ctx.disagree("malformed", {"line": "malformed driver input"}, "bad-op expected", m)
+    model = model[:len(lines)]
     for (p, a), i, m in zip(pairs, impl, model):
         ctx.corr("judge")
         mm = m if i.endswith("x") is False else m.split(" ")[0] + " ua=x"
@@ -624,8 +642,6 @@ def evaluate(ctx, cases, with_model=True):
             dcls = [] if parts.get("D", "-") == "-" else parts["D"].split(",")
             ctx.tag("model_" + (mres.split(":")[0] if mres else "bad-op"))
             ctx.corr("e2e")
-            if out != mres:
-                ctx.disagree("e2e", case, out + " | " + impl[i]["reveal"], model[i])
             # spec validation: Lean accepts / firstMatch vs the independent oracle
             ctx.corr("spec")
             if macc != "".join("1" if a else "0" for a, _ in acc_o):
@@ -639,6 +655,7 @@ def evaluate(ctx, cases, with_model=True):
             ctx.sample({"overloads": case["overloads"], "call": case["call"], "pyanalyze": out, "reveal_type": impl[i]["reveal"],
                         "model": model[i] if model else None})
         conforms = (mres is None) or (out == mres)
+        n_before, checked = len(ctx.candidates), False
 
         def cand(what, prefer):
             cls = next((c for c in prefer if c in dcls), None)
@@ -651,6 +668,7 @@ def evaluate(ctx, cases, with_model=True):
             fm = first_match_oracle(sigs, call)
             want = "err" if fm is None else ret_out(fm)
             ctx.tag("P1_checked")
+            checked = True
             if out != want:
                 cand("no Any / no union: pyanalyze gives %s, first match gives %s" % (out, want), ["emptyVarPos"])
         elif kind == "union1":
@@ -660,10 +678,12 @@ def evaluate(ctx, cases, with_model=True):
             ctx.tag("P2_checked")
             if all(r is not None for r in own):
                 ctx.tag("P2_all_members_accepted")
+                checked = True
                 if out.startswith("err"):
                     cand("one union argument, every member accepted by some overload (%s) but the call is diagnosed" % own,
                          ["unionInVarPos", "emptyVarPos"])
             if out.startswith("ok:"):
+                checked = True
                 flat = _flat_of_out(out)
                 for m, r in zip(UNION_MEMBERS[ut], own):
                     if r is not None and not set(flat_members(r)) <= flat:
@@ -677,6 +697,7 @@ def evaluate(ctx, cases, with_model=True):
                 distinct = any(s[1] != acc[0][1] for s in acc[1:])
                 if first_used and distinct:
                     ctx.tag("P3_checked")
+                    checked = True
                     if out != "multi":
                         cand("Any argument: first accepting overload accepts through Any and another accepting overload returns "
                              "a different type, but the result is %s" % out, [])
@@ -684,6 +705,13 @@ def evaluate(ctx, cases, with_model=True):
                     ctx.tag("P3_first_match_clean")
                 else:
                     ctx.tag("P3_single_return_type")
+        if mres is not None and out != mres:
+            # inside an exception class the implementation may either behave like the (defective) model or satisfy the
+            # property under the direct oracle (the defect has been repaired); anything else is a disagreement
+            if dcls and checked and len(ctx.candidates) == n_before:
+                ctx.tag("satisfies_property_inside_D_unlike_model")
+            else:
+                ctx.disagree("e2e", case, out + " | " + impl[i]["reveal"], model[i])
 
 
 def _flat_of_out(out):
